@@ -172,6 +172,7 @@ func H_C06(nc, ns, nr, mwAt, mode int) {
 			w.WriteHeader(202)
 		}))
 	}
+	fp := verifFingerprint(c)
 	// an earlier request must not influence this one
 	if nondetBool("warmup") {
 		saved := make([]bool, len(k.filts))
@@ -189,7 +190,6 @@ func H_C06(nc, ns, nr, mwAt, mode int) {
 	}
 	rec := vNewRec()
 	k.curRec = rec
-	fp := verifFingerprint(c)
 	verifFrameBegin("dispatch", k, &plainRan)
 	switch mode {
 	case 0:
